@@ -140,6 +140,30 @@ func (a *acc) roundTrip(fr drpcwire.Frame, deep bool) {
 		return
 	}
 	a.ok++
+	// re-encoding in place, the way a filter that does not allocate works on a read buffer: the frame
+	// parsed out of the buffer (its Data points into the buffer) is appended to the buffer's own start;
+	// and a second frame, parsed from further back, is moved up behind it
+	if len(fr.Data) <= 300 {
+		for spare := 0; spare <= 9; spare += 3 {
+			buf := make([]byte, 0, 2*len(enc)+spare)
+			buf = append(append(buf, enc...), enc...)
+			rest, f1, ok1, _ := drpcwire.ParseFrame(buf)
+			_, f2, ok2, _ := drpcwire.ParseFrame(rest)
+			if !ok1 || !ok2 {
+				break
+			}
+			out := drpcwire.AppendFrame(buf[:0], f1)
+			if !bytes.Equal(out, enc) {
+				a.fail("encode-in-place", "AppendFrame(buf[:0], frame parsed from buf) for %s gives %x, want %x", frs(fr), trunc(out), trunc(enc))
+				break
+			}
+			out = drpcwire.AppendFrame(out[:0], f2) // the second copy moves to the front
+			if !bytes.Equal(out, enc) {
+				a.fail("encode-in-place", "moving the second frame of a buffer to its front with AppendFrame for %s gives %x, want %x", frs(fr), trunc(out), trunc(enc))
+				break
+			}
+		}
+	}
 	suffix := []byte{0xff, 0x00, 0x80, 0x01}
 	rem, got, ok, err = drpcwire.ParseFrame(append(append([]byte(nil), enc...), suffix...))
 	if !ok || err != nil || !bytes.Equal(rem, suffix) || got.ID != fr.ID || !bytes.Equal(got.Data, fr.Data) {
@@ -566,7 +590,7 @@ func main() {
 	runner.Main(runner.Check{
 		Property: "C08",
 		Level:    "exploration",
-		Rule:     "differential monitor of drpcwire codec functions against the independent reference codec (refwire). Cases: (1) every frame in kind(64) x done x control x 13 boundary ids squared x 6 payload lengths, with every header prefix and 3 mutations of every header byte; (2) every byte string up to length 2 (quick) / 3 (thorough) and all strings of length 4-6 over a 7-byte alphabet; (3) varints: all 2^k, 2^k±1, over-long forms, seeded values; (4) SplitN over boundary sizes; (5) seeded frame-like strings with canonical, padded and over-long varints; (6) the opening bytes of other protocols and of the drpcmigrate header (18 openers), cut at every length and continued by seeded bytes. A case is one (function, input) pair; batches partition the input space, so distinct_nontrivial is the number of inputs compared (inputs inside a seeded batch are drawn from a 64-bit PRNG stream, collisions negligible).",
+		Rule:     "differential monitor of drpcwire codec functions against the independent reference codec (refwire). Cases: (1) every frame in kind(64) x done x control x 13 boundary ids squared x 6 payload lengths, with every header prefix and 3 mutations of every header byte, re-encoded in place over the buffer it was parsed from; (2) every byte string up to length 2 (quick) / 3 (thorough) and all strings of length 4-6 over a 7-byte alphabet; (3) varints: all 2^k, 2^k±1, over-long forms, seeded values; (4) SplitN over boundary sizes; (5) seeded frame-like strings with canonical, padded and over-long varints; (6) the opening bytes of other protocols and of the drpcmigrate header (18 openers), cut at every length and continued by seeded bytes. A case is one (function, input) pair; batches partition the input space, so distinct_nontrivial is the number of inputs compared (inputs inside a seeded batch are drawn from a 64-bit PRNG stream, collisions negligible).",
 		Assumptions: []string{
 			"the reference codec refwire encodes the wire description correctly (it is 60 lines and cross-checked against released v0.0.17 in C18)",
 			"the silent truncation of the 10th varint group to 64 bits is specified behaviour (identical in v0.0.17)",
